@@ -602,6 +602,15 @@ pub fn generate(prop: &str, seed: u64, idx: u64, tier: Tier) -> Plan {
         p.ops.push(req_op(at, user, mi, uc, fp, ctl, 1, if src == 0 { SRC_FRESH } else { SRC_B }));
         return p;
     }
+    // gathering-stage runs (Binding transaction with a STUN server)
+    if r.chance(6) {
+        p.knobs.insert("srflx".into(), 1);
+        p.knobs.insert("forge".into(), *r.pick(&[0i64, 1, 1, 2, 3]));
+        p.knobs.insert("srv_delay_ms".into(), *r.pick(&[0i64, 5, 50, 400, 2000]));
+        p.knobs.insert("srv_silent".into(), if r.chance(20) { 1 } else { 0 });
+        p.latency_us = [r.range(100, 30_000), r.range(100, 30_000)];
+        return p;
+    }
     // swarm part
     let role = r.below(2) as i64;
     let target = r.below(3) as i64;
@@ -793,8 +802,99 @@ impl Judge<'_> {
     }
 }
 
+/// Second sentence of C06 at the gathering stage: the Binding transaction towards a STUN server. A server host S
+/// (harness code) answers A's request after `srv_delay_ms` (or never); an off-path party that can spoof S's address
+/// sends A's gathering socket responses that match NO outstanding transaction (other transaction id; knob `forge`:
+/// 1 success with XOR-MAPPED-ADDRESS = the attacker's address, 2 the same twice, 3 error response) before the genuine
+/// answer. A server-reflexive candidate may only come from a response that matches A's transaction.
+async fn run_srflx(ctx: &Ctx) {
+    let p = &ctx.plan;
+    ctx.net.install_binder();
+    let s_addr: SocketAddr = addr("10.0.0.50", 3478);
+    let evil: SocketAddr = addr("M", 6666);
+    let srv = match ctx.net.bind(s_addr) {
+        Ok(s) => Arc::new(vh::UdpSocket::from_sim(s)),
+        Err(e) => {
+            ctx.violate("HARNESS.c06-srflx", format!("bind S: {e}"));
+            return;
+        }
+    };
+    let forge = p.knob("forge", 1);
+    let delay = p.knob("srv_delay_ms", 50).clamp(0, 4000) as u64;
+    let silent = p.knob("srv_silent", 0) == 1;
+    let seen: Arc<Mutex<Vec<(SocketAddr, [u8; 12])>>> = Arc::new(Mutex::new(Vec::new()));
+    let net = ctx.net.clone();
+    let sh = ctx.sh.clone();
+    let seen2 = seen.clone();
+    let mut arng = Rng::new(mix(p.seed, 0x7372666c78));
+    let server = tokio::spawn(vh::wrap_task(async move {
+        let mut buf = vec![0u8; 2048];
+        loop {
+            let Ok((n, from)) = srv.recv_from(&mut buf).await else { break };
+            let Some(v) = stun_parse(&buf[..n]) else { continue };
+            if !v.is_request() {
+                continue;
+            }
+            seen2.lock().unwrap().push((from, v.tx));
+            sh.lock().unwrap().event("S got binding request", &format!("from {from}"));
+            // forged responses first (they travel with the attacker's own latency, i.e. at once)
+            if forge != 0 {
+                let copies = if forge == 2 { 2 } else { 1 };
+                for _ in 0..copies {
+                    let mut tx = [0u8; 12];
+                    arng.fill(&mut tx);
+                    let bytes = if forge == 3 {
+                        stun_build(0x0111, &tx, &[(AT_ERROR, vec![0, 0, 4, 0, b'B', b'a', b'd'])], &MiMode::Absent, 1)
+                    } else {
+                        stun_build(0x0101, &tx, &[(AT_XOR_MAPPED, xor_addr_v4(evil))], &MiMode::Absent, 1)
+                    };
+                    sh.lock().unwrap().event("attack forged response to the gathering socket", &format!("forge={forge} to {from}"));
+                    net.inject(s_addr, from, &bytes);
+                }
+            }
+            if !silent {
+                tokio::time::sleep(Duration::from_millis(delay)).await;
+                let genuine = stun_build(0x0101, &v.tx, &[(AT_XOR_MAPPED, xor_addr_v4(from))], &MiMode::Absent, 1);
+                let _ = srv.send_to(&genuine, from).await;
+            }
+        }
+    }));
+    let mut c = cfg(0, false, p.seed);
+    c.ice_servers = vec![rustrtc::IceServer::new(vec!["stun:10.0.0.50:3478".to_string()])];
+    let (a, ra) = IceTransportBuilder::new(c).role(IceRole::Controlling).build();
+    let ta = tokio::spawn(vh::wrap_task(ra));
+    let ok = tokio::time::timeout(Duration::from_secs(20), gathered(&a)).await.unwrap_or(false);
+    tokio::time::sleep(Duration::from_millis(delay + 200)).await;
+    let cands = a.local_candidates();
+    let asked = seen.lock().unwrap().len();
+    ctx.ev(&format!("gathering done ok={ok} asked={asked}"), &format!("{:?}", cands.iter().map(|c| format!("{:?}:{}", c.typ, c.address)).collect::<Vec<_>>()));
+    ctx.stat(if asked > 0 { "probe.srflx_server_asked" } else { "probe.srflx_server_not_asked" }, 1);
+    for cnd in cands.iter() {
+        if cnd.address == evil {
+            ctx.violate("C06.response", format!("kind=srflx-from-unmatched-response A advertises the {:?} candidate {} taken from a response whose transaction id matches no request of A (forged from the STUN server's address, forge={forge}); A's requests: {asked}", cnd.typ, cnd.address));
+        }
+    }
+    if forge == 0 && !silent && asked > 0 && !cands.iter().any(|c| c.typ == rustrtc::transports::ice::IceCandidateType::ServerReflexive) {
+        ctx.violate("HARNESS.c06-srflx", "attacker-free control: the genuine answer of the STUN server produced no server-reflexive candidate".into());
+    }
+    if asked > 0 && forge != 0 {
+        ctx.stat("nontrivial", 1);
+    }
+    a.stop();
+    server.abort();
+    ta.abort();
+    let _ = ta.await;
+    let _ = server.await;
+    drop(a);
+    tokio::time::sleep(Duration::from_millis(300)).await;
+}
+
 pub async fn run(ctx: &Ctx) {
     let p = &ctx.plan;
+    if p.knob("srflx", 0) == 1 {
+        run_srflx(ctx).await;
+        return;
+    }
     let role_controlled = p.knob("role", 1) == 1;
     let mux = p.knob("mux", 0) == 1;
     let target = p.knob("target", 1).rem_euclid(3);
